@@ -49,6 +49,9 @@ func init() {
 	streams["engine-c06"] = func(t *testing.T, o *Out) {
 		streamEngine(t, o, EngProfile{Name: "c06", LimitsLoose: true, OtherNet: true})
 	}
+	streams["engine-wide"] = func(t *testing.T, o *Out) {
+		streamEngine(t, o, EngProfile{Name: "wide", LimitsLoose: true, Wide: true})
+	}
 	streams["engine-c03"] = func(t *testing.T, o *Out) {
 		streamEngine(t, o, EngProfile{Name: "c03", LimitsLoose: true, Faults: true})
 	}
